@@ -157,7 +157,7 @@ class Registry:
     def lemma(self, label, hyps, goal, use_axioms=True):
         self.lemmas.append((label, hyps, goal, len(self.pending_axioms) if use_axioms else -1))
 
-    def induct(self, label, bound, k, P, side=None, patterns=None):
+    def induct(self, label, bound, k, P, side=None, patterns=None, export=True):
         """Induction on the integer k >= 0:  prove P(0) and (side, k>=0, P(k) => P(k+1)); afterwards
         ``forall bound, k. k >= 0 and side => P(k)`` is available as an axiom.  ``bound`` are the other
         universally quantified variables (fresh constants in the two proof goals)."""
@@ -168,7 +168,9 @@ class Registry:
             hyps += [side_f, z3.substitute(side_f, (k, k + 1))]
         self.lemma(label + ':step', hyps, P(k + 1))
         body = z3.Implies(z3.And(k >= 0, side_f), P(k))
-        self.pending_axioms.append((label, z3.ForAll(list(bound) + [k], body, patterns=patterns or [])))
+        if export:
+            self.pending_axioms.append((label, z3.ForAll(list(bound) + [k], body, patterns=patterns or [])))
+        # export=False: the conclusion is only used through ground instances a contract supplies by hand (ghost hooks)
 
     def by_simple_name(self, name):
         hits = [p for k, p in self.procs.items() if k.split(':')[-1].split('.')[-1] == name]
